@@ -11,7 +11,8 @@ def handle : List String → Option String
       let t := joinList (r.table.map (fun e => s!"{e.1}:{e.2}"))
       let ef := match r.execFdFile with | some f => toString f | none => "-"
       let ex := match r.exited with | some c => toString c | none => "-"
-      some s!"{t} execfile={ef} caller_exec={r.callerExec} exited={ex}"
+      let hand := if handAgrees fs (← p0.toNat?) (← p1.toNat?) (← exec.toNat?) (← natList openFds) (vf == "1") then "1" else "0"
+      some s!"{t} execfile={ef} caller_exec={r.callerExec} exited={ex} hand={hand}"
     | .error e => some ("error " ++ hex e.toList)
   | _ => none
 
